@@ -91,6 +91,10 @@ func marshal(val cty.Value, ty cty.Type, path cty.Path, enc *msgpack.Encoder) er
 					err = enc.EncodeInt(iv)
 				} else if fv, acc := bf.Float64(); acc == big.Exact && !bf.IsInt() {
 					err = enc.EncodeFloat64(fv)
+				} else if bf.IsInt() {
+					// Whole numbers compare by their exact value, so write every
+					// digit rather than the shortest text for the mantissa's precision.
+					err = enc.EncodeString(bf.Text('f', 0))
 				} else {
 					err = enc.EncodeString(bf.Text('f', -1))
 				}
